@@ -45,6 +45,7 @@ type FuncContract struct {
 	Pure     bool // result is a function of the arguments (and pointees); no effects
 	Assumed  bool // trusted: the body is not verified
 	NoInline bool
+	Aliases  map[string]string // result name -> parameter whose backing array it may share
 	Props    []string
 	Line     int
 	Ghost    []string
@@ -210,6 +211,17 @@ func parseContractFile(path, pkg string) (*ContractFile, error) {
 				continue
 			case t == "noinline":
 				cur.NoInline = true
+				continue
+			case strings.HasPrefix(t, "aliases "):
+				// aliases <result> <param>: the slice returned shares its backing array with that argument
+				fs := strings.Fields(t[8:])
+				if len(fs) != 2 {
+					return nil, fail("aliases needs: <result> <param>")
+				}
+				if cur.Aliases == nil {
+					cur.Aliases = map[string]string{}
+				}
+				cur.Aliases[fs[0]] = fs[1]
 				continue
 			case strings.HasPrefix(t, "property "):
 				cur.Props = append(cur.Props, strings.Fields(strings.ReplaceAll(t[9:], ",", " "))...)
